@@ -1,7 +1,7 @@
 (* driver for the extracted heap model (property C11): one case per input line, written in the Coq term syntax that
    harness/props/C11.py emits (constructor applications, [a; b] lists, (a, b) tuples, integers, n%nat, true/false/None/Some);
    the line is read into a generic tree and converted to the extracted types; answer per line: 1 / 0 = Heap.check_kcase,
-   or (argument "dump") a JSON object with the model's final root views and sharing *)
+   under either memo policy of copy(), or (argument "dump") a JSON object with the model's final root views and sharing *)
 open Model
 
 let rec z_of_pos n = if n = 1 then XH else if n land 1 = 0 then XO (z_of_pos (n lsr 1)) else XI (z_of_pos (n lsr 1))
@@ -127,6 +127,7 @@ let rop = function
   | App [Id "OSubListAppend"; a; b; c] -> OSubListAppend (rz a, rz b, rz c)
   | App [Id "OSubStatus"; a; b; c; d] -> OSubStatus (rz a, rz b, rz c, rz d)
   | App [Id "OPathAppend"; p; v] -> OPathAppend (rzl p, rz v)
+  | App [Id "OAliasAttr"; a; p] -> OAliasAttr (rz a, rzl p)
   | x -> bad "op" x
 let rops = function
   | Lst l -> List.map rop l
@@ -153,9 +154,9 @@ let rec rctree = function
   | App [Id "CO"; kd; cells] -> CO (rpair rz rz kd, rlist (rpair rz rctree) cells)
   | x -> bad "ctree" x
 let rconsts = function
-  | App [Id "mkConsts"; a; b; c; d; e; f; g; h; i; j; k; l] ->
+  | App [Id "mkConsts"; a; b; c; d; e; f; g; h; i; j; k; l; sm] ->
     { k_status0 = rz a; k_iter0 = rz b; k_dt_status = rz c; k_dt_iter = rz d; k_dt_obj = rz e; k_dt_float = rz f; k_false = rz g;
-      k_engine = rz h; k_default = rz i; k_linker_name = rz j; k_dt_trace_values = rz k; k_pyfloat = rz l }
+      k_engine = rz h; k_default = rz i; k_linker_name = rz j; k_dt_trace_values = rz k; k_pyfloat = rz l; k_single_memo = rbool sm }
   | x -> bad "consts" x
 let rshare = function
   | Tup [i; j; l] -> ((rnat i, rnat j), rlist (rpair rzl rzl) l)
@@ -175,7 +176,14 @@ let rec jtree b = function
     List.iteri (fun i (k, t) -> if i > 0 then Buffer.add_char b ','; Buffer.add_string b (Printf.sprintf "[%d," (int_of_z k)); jtree b t; Buffer.add_char b ']') cells;
     Buffer.add_string b "]]"
 let jzl b l = Buffer.add_char b '['; List.iteri (fun i z -> if i > 0 then Buffer.add_char b ','; Buffer.add_string b (string_of_int (int_of_z z))) l; Buffer.add_char b ']'
+(* the property allows copy() to use a fresh deepcopy memo per __dict__ entry (the code as it is) or one memo for all entries: the
+   model is parameterised by that policy (consts field k_single_memo) and a case agrees when it agrees under one of the two *)
+let with_policy (c : kcase) (b : bool) : kcase = { c with kc_consts = { c.kc_consts with k_single_memo = b } }
+let agrees (c : kcase) : bool = check_kcase (with_policy c false) || check_kcase (with_policy c true)
+
 let dump (c : kcase) : string =
+  let c = if check_kcase (with_policy c false) then with_policy c false
+          else if check_kcase (with_policy c true) then with_policy c true else with_policy c false in
   let s = kcase_final c in
   let b = Buffer.create 4096 in
   Buffer.add_string b (Printf.sprintf "{\"ok\":%b,\"views\":[" (check_kcase c));
@@ -196,7 +204,7 @@ let () =
       let line = input_line stdin in
       (try
          let c = rkcase (parse line) in
-         print_endline (if dumping then dump c else if check_kcase c then "1" else "0")
+         print_endline (if dumping then dump c else if agrees c then "1" else "0")
        with
        | Bad m -> print_endline ("E " ^ m)
        | Stack_overflow -> print_endline "E stack overflow"
